@@ -103,7 +103,18 @@ type histOp struct {
 // is mirrored on a NEW object; every (verdict, offset) and the definitive view
 // must agree.
 func checkHistory(w *core.Worker, p *ParserDef, cfg Cfg, ops []histOp) (judged int) {
+	return checkHistoryC(w, p, cfg, ops, nil)
+}
+
+// checkHistoryC: cfgs (optional, message objects only) gives the arrays the object is
+// re-initialised with (Init) before each op: the object must then behave like a new
+// object with THOSE arrays, whatever arrays it used before.
+func checkHistoryC(w *core.Worker, p *ParserDef, cfg0 Cfg, ops []histOp, cfgs []Cfg) (judged int) {
 	s := sc(w)
+	cfg := cfg0
+	if cfgs != nil {
+		cfg = cfgs[0]
+	}
 	U := p.New(cfg)
 	for st := range ops {
 		op := &ops[st]
@@ -119,8 +130,13 @@ func checkHistory(w *core.Worker, p *ParserDef, cfg Cfg, ops []histOp) (judged i
 					"msg_flags": cfg.MsgFlags, "tok_flags": uint(cfg.Flags), "history_step": st}
 				var hs []map[string]any
 				for i := 0; i <= st; i++ {
-					hs = append(hs, map[string]any{"input": core.Esc(ops[i].in), "cuts": ops[i].cuts, "abandoned_at": ops[i].abandon,
-						"then": []string{"Reset", "Init", "Reset+Init"}[ops[i].rk]})
+					h := map[string]any{"input": core.Esc(ops[i].in), "cuts": ops[i].cuts, "abandoned_at": ops[i].abandon,
+						"then": []string{"Reset", "Init", "Reset+Init"}[ops[i].rk]}
+					if cfgs != nil {
+						h["then"] = "Init with the arrays of the next step"
+						h["hdr_cap"], h["contact_cap"] = cfgs[i].HdrCap, cfgs[i].ContactCap
+					}
+					hs = append(hs, h)
 				}
 				d["history"] = hs
 				return d
@@ -172,6 +188,22 @@ func checkHistory(w *core.Worker, p *ParserDef, cfg Cfg, ops []histOp) (judged i
 		if st > 0 && defin {
 			judged++
 		}
+		if cfgs != nil && st+1 < len(ops) {
+			// Init with (possibly) other arrays
+			next := cfgs[st+1]
+			mo := U.(*msgObj)
+			if pan, pmsg, stk := core.Guard(func() { mo.m.Init(nil, mkHdrs(next.HdrCap), mkContacts(next.ContactCap)) }); pan {
+				w.Fail("panic-in-reset/"+p.Name, func() *core.Violation {
+					v := core.V("Init panicked: "+pmsg, op.in, nil)
+					v.Stack = stk
+					return v
+				})
+				return
+			}
+			mo.flags = next.MsgFlags
+			cfg = next
+			continue
+		}
 		if pan, pmsg, stk := core.Guard(func() { doReset(U, op.rk, cfg) }); pan {
 			w.Fail("panic-in-reset/"+p.Name, func() *core.Violation {
 				v := core.V("reset operation panicked: "+pmsg, op.in, nil)
@@ -185,9 +217,19 @@ func checkHistory(w *core.Worker, p *ParserDef, cfg Cfg, ops []histOp) (judged i
 }
 
 func histInput(rr *core.Rand, p *ParserDef, cfg *Cfg, corpus [][]byte) []byte {
+	if p.Name == "ParseAllPAIValues" || p.Name == "ParseOnePAI" {
+		if rr.Intn(5) == 0 {
+			// '*' is syntactically a value but not a legal identity: the parse fails late
+			return []byte([]string{"*\r\nX", "<sip:a>, *\r\nX", " * \r\nX", "\"n\" <sip:b>,*,<sip:c>\r\nX"}[rr.Intn(4)])
+		}
+	}
 	if p.IsMsg || p.Group == "hdrpv" || p.Group == "hdr" {
 		var in []byte
-		if rr.Intn(3) > 0 {
+		if cfg.HdrCap > 32 && rr.Intn(2) == 0 {
+			in = gen.Msg(rr, gen.MsgOpts{MinHdrs: 30, MaxHdrs: 60, MultiNA: 20}).Raw
+		} else if rr.Intn(6) == 0 {
+			in = []byte("INVITE sip:a SIP/2.0\r\nVia: x\r\n" + []string{"P-Asserted-Identity: *\r\n", "P-Asserted-Identity: <sip:a>, *\r\n", "Contact: *\r\n"}[rr.Intn(3)] + "f: <sip:b>;tag=1\r\n\r\n")
+		} else if rr.Intn(3) > 0 {
 			in = gen.Msg(rr, gen.MsgOpts{MinHdrs: 1, MaxHdrs: 9, MultiNA: 60,
 				Kinds: []int{gen.HContact, gen.HContact, gen.HPAI, gen.HPAI, gen.HFrom, gen.HTo, gen.HCSeq, gen.HCallID, gen.HVia, gen.HExpires, gen.HOtherKind}}).Raw
 		} else {
@@ -209,7 +251,7 @@ func histInput(rr *core.Rand, p *ParserDef, cfg *Cfg, corpus [][]byte) []byte {
 
 // RunC12 is the monitor for C12.
 func RunC12(r *core.Run) {
-	r.Rule = "case = a history on ONE parser object: op1 reset op2 reset ... (2..8 ops), op = (input, cut schedule, abandon point: complete / suspended mid-token / failed), reset in {Reset, Init, Reset+Init}; every op after a reset is mirrored on a NEW object with arrays of the same capacity and every (verdict, offset) plus the definitive public view must agree; non-trivial = an op after at least one reset reached a definitive verdict and was compared; distinct by hash of the history"
+	r.Rule = "case = a history on ONE parser object: op1 reset op2 reset ... (2..8 ops), op = (input, cut schedule, abandon point: complete / suspended mid-token / failed), reset in {Reset, Init, Reset+Init} (message objects also: Init with other arrays, built-in <-> caller supplied, header arrays up to 65 entries); every op after a reset is mirrored on a NEW object with arrays of the same capacity and every (verdict, offset) plus the definitive public view must agree; non-trivial = an op after at least one reset reached a definitive verdict and was compared; distinct by hash of the history"
 	r.Assume = []string{"'same caller-supplied arrays' = a new object gets fresh zeroed arrays of the same capacity", "PPAIs.Init, PContacts.Init(vals), PHdrVals.Init(vals), URIParamsLst.Init, URIHdrsLst.Init are the init operations; other objects only have Reset"}
 	corpus := loadCorpus()
 	n := r.Pick(800000, 12000000)
@@ -223,6 +265,9 @@ func RunC12(r *core.Run) {
 		if rr.Intn(2) == 0 {
 			cfg.ContactCap = []int{1, 2, 3}[rr.Intn(3)]
 			cfg.ParamCap = []int{1, 2, 3}[rr.Intn(3)]
+		}
+		if rr.Intn(6) == 0 && (p.IsMsg || p.Group == "hdr" || p.Group == "hdrpv") {
+			cfg.HdrCap = []int{33, 40, 64, 65}[rr.Intn(4)] // larger than any internal table
 		}
 		steps := rr.Range(2, 8)
 		ops := make([]histOp, steps)
@@ -251,6 +296,31 @@ func RunC12(r *core.Run) {
 				hs = append(hs, map[string]any{"input": core.Esc(o.in), "abandon_at": o.abandon, "then": []string{"Reset", "Init", "Reset+Init"}[o.rk]})
 			}
 			w.Sample("histories/"+p.Group, map[string]any{"parser": p.Name, "contact_cap": cfg.ContactCap, "hdr_cap": cfg.HdrCap, "param_cap": cfg.ParamCap, "history": hs})
+		}
+	})
+	// message objects re-initialised with OTHER arrays between the steps (built-in <-> caller supplied)
+	r.Stage("histories/init-with-other-arrays", r.Pick(100000, 3000000), func(w *core.Worker, idx int64) {
+		rr := core.NewRand(r.Seed, 0xC12, 5, uint64(idx))
+		p := Parsers[0]
+		steps := rr.Range(2, 6)
+		ops := make([]histOp, steps)
+		cfgs := make([]Cfg, steps)
+		h := uint64(idx)
+		for i := range ops {
+			cfgs[i] = Cfg{HdrCap: []int{-1, -1, 0, 2, 12, 40}[rr.Intn(6)], ContactCap: []int{-1, -1, 0, 1, 3, 8}[rr.Intn(6)], MsgFlags: uint8(rr.Intn(8))}
+			c := cfgs[i]
+			in := histInput(rr, p, &c, corpus)
+			ab := len(in)
+			if rr.Intn(3) == 0 {
+				ab = rr.Intn(len(in) + 1)
+			}
+			ops[i] = histOp{in: in, rk: rkInit, abandon: ab, cuts: CutsRandom(nil, rr, 0, ab, rr.Range(0, 3))}
+			h = core.Mix(h ^ core.HashBytes(in) ^ uint64(ab))
+		}
+		if j := checkHistoryC(w, p, cfgs[0], ops, cfgs); j > 0 {
+			w.Nontrivial(h)
+			w.Inc("nontrivial_cases")
+			w.Add("ops_judged_after_reset", int64(j))
 		}
 	})
 	// enumerated abandon points: input A dropped at EVERY prefix, reset, then B
